@@ -271,3 +271,10 @@ package parser
 //@   at call newYamlNode assert arg1 == offsetLine && arg2 == offsetColumn && arg3 == contentLines
 //@   at store Key assert member(made, arg0)
 //@   at store Value assert member(made, arg0)
+
+// C01 (strict parser, document level): yaml.v3 refuses a mapping that defines a key twice when it decodes into
+// rulefmt.RuleGroups, and `groups` is the only key parseGroups lets through - so a top-level mapping never gets past
+// its first entry without an error: the entry loop is never entered a second time.
+//@ func parseGroups [C01]
+//@   loop 2 invariant 0 <= iter2 && iter2 <= 1
+//@   loop 2 invariant hasGroups == (iter2 >= 1)
